@@ -253,11 +253,12 @@ type fcc struct {
 	failNew, strict bool
 	all             []*fsc
 	// per-step observations
-	created []*fsc
-	removed []balancer.SubConn
-	pubs    []balancer.State
-	refused int
-	updAddr int
+	created     []*fsc
+	removed     []balancer.SubConn
+	pubs        []balancer.State
+	refused     int
+	updAddr     int
+	everRemoved map[balancer.SubConn]bool
 	// called inside RemoveSubConn (the library is in the middle of a take-over then)
 	onRemove func(balancer.SubConn)
 }
@@ -275,6 +276,10 @@ func (c *fcc) NewSubConn(a []resolver.Address, o balancer.NewSubConnOptions) (ba
 }
 func (c *fcc) RemoveSubConn(sc balancer.SubConn) {
 	c.removed = append(c.removed, sc)
+	if c.everRemoved == nil {
+		c.everRemoved = map[balancer.SubConn]bool{}
+	}
+	c.everRemoved[sc] = true
 	if c.onRemove != nil {
 		c.onRemove(sc)
 	}
